@@ -8,8 +8,10 @@ import (
 	"io/ioutil"
 	"os"
 	"path/filepath"
+	"regexp"
 	"sort"
 	"strings"
+	"verifharness/gen/javawide"
 
 	"github.com/modernizing/coca/pkg/application/analysis/javaapp"
 	"github.com/modernizing/coca/pkg/application/api"
@@ -38,7 +40,7 @@ var Check = &run.Check{
 	ID:    "C07",
 	Level: "exploration",
 	Rule: "3 of 4 cases: a generated Java project (2-7 files; the same variable names with different types in different files and methods, inherited receivers, suffix-colliding imports, same simple class name in two packages, " +
-		"Spring controllers with and without a class-level mapping (some extending one another) next to non-controllers, interfaces/abstract members carrying @Override) analysed several times IN ONE PROCESS: " +
+		"Spring controllers with and without a class-level mapping (some extending one another) next to non-controllers, interfaces/abstract members carrying @Override) plus, in half of the cases, one file of C09's wide generator (enums with constant bodies, records, annotation types, nested/anonymous classes, initialisers) in a package of its own) analysed several times IN ONE PROCESS: " +
 		"R1 permuted file lists (identifier pass, full pass) / the same sources under directory names that sort differently (bad-smell pass, API pass; results compared through the path bijection), " +
 		"R2 sub- and supersets with the identifier set held fixed, R3 the same call repeated 2-3 times; per-file slices must be identical (functions inside a type compared as a set). " +
 		"1 of 4 cases: R4 a call graph / reverse call graph generated for model A (classes extending one another in chains of up to 5, inherited methods called through subclass receivers), again for A, and again after a different model B: the three edge sets for A must be equal. " +
@@ -125,7 +127,21 @@ func marshal(v interface{}) string {
 
 func canonDS(d core_domain.CodeDataStruct, id string) string {
 	d.FilePath = id
+	return marshal(sortFunctions(d))
+}
+
+// sortFunctions: the order of functions inside a type is free (C08), also inside nested and anonymous types.
+func sortFunctions(d core_domain.CodeDataStruct) core_domain.CodeDataStruct {
 	fs := append([]core_domain.CodeFunction(nil), d.Functions...)
+	for i := range fs {
+		if len(fs[i].InnerStructures) > 0 {
+			in := append([]core_domain.CodeDataStruct(nil), fs[i].InnerStructures...)
+			for k := range in {
+				in[k] = sortFunctions(in[k])
+			}
+			fs[i].InnerStructures = in
+		}
+	}
 	sort.SliceStable(fs, func(i, j int) bool {
 		a, b := fs[i], fs[j]
 		if a.Name != b.Name {
@@ -134,10 +150,20 @@ func canonDS(d core_domain.CodeDataStruct, id string) string {
 		if a.Position.StartLine != b.Position.StartLine {
 			return a.Position.StartLine < b.Position.StartLine
 		}
-		return a.Position.StartLinePosition < b.Position.StartLinePosition
+		if a.Position.StartLinePosition != b.Position.StartLinePosition {
+			return a.Position.StartLinePosition < b.Position.StartLinePosition
+		}
+		return marshal(a) < marshal(b)
 	})
 	d.Functions = fs
-	return marshal(d)
+	if len(d.InnerStructures) > 0 {
+		in := append([]core_domain.CodeDataStruct(nil), d.InnerStructures...)
+		for k := range in {
+			in[k] = sortFunctions(in[k])
+		}
+		d.InnerStructures = in
+	}
+	return d
 }
 
 // materialise writes the files under dir; file i goes into sub-directory order[i] (so that the directory walk visits
@@ -215,6 +241,30 @@ func runCase(c *run.Ctx, o *run.Outcome) {
 		files = append(files, srcFile{ID: id, Name: f.Type.Name + ".java", Text: f.Text, Kind: f.Type.Kind})
 	}
 	nCtl := r.Range(0, 3)
+	// one "unusual" file from the wide generator of C09 (enums with constant bodies, records, annotation types, nested and
+	// anonymous classes, initialisers, ...) in a package of its own: no reference result is needed for the relations
+	if r.Chance(1, 2) {
+		wf := javawide.Handwritten(r.Fork())
+		if ne, _ := common.JavaSyntaxErrors(wf.Text); ne == 0 {
+			wpk := ""
+			if m := regexp.MustCompile(`(?m)^\s*(?:@[^\n]*\n\s*)?package\s+([^;]+);`).FindStringSubmatch(wf.Text); m != nil {
+				wpk = strings.TrimSpace(m[1])
+			}
+			clash := wpk == "com.acme.web"
+			for _, f := range p.Files {
+				if f.Pkg == wpk {
+					clash = true
+				}
+			}
+			if !clash {
+				files = append(files, srcFile{ID: "wide:" + wpk, Name: "WideUnit.java", Text: wf.Text, Kind: "wide-generator-file"})
+				o.Count("wide_generator_files", 1)
+				for fam := range wf.Families {
+					o.Seen("wide_construct_families", fam)
+				}
+			}
+		}
+	}
 	// controller names first: a controller may extend one that sorts (and is walked) before it, or, in other cases, after it
 	var ctlNames []string
 	for i := 0; i < nCtl; i++ {
